@@ -48,6 +48,11 @@ impl<R: Read> Iterator for ChunkedChars<R> {
     /// If error occurs, sets the error field that is a shared reference to the
     /// error value, so that the parser can later pick this up.
     fn next(&mut self) -> Option<char> {
+        // Once an error has been recorded the stream has ended for the parser: never yield
+        // further characters after having signalled the end.
+        if self.err.borrow().is_some() {
+            return None;
+        }
         // Read exactly one UTF-8 codepoint (1..=4 bytes) from the underlying reader.
         // No internal buffering: rely on the outer BufReader and decoder.
         let mut buf = [0u8; 4];
